@@ -125,6 +125,44 @@ fn main() {
                 }
             }
         }
+        "fingerprints" => {
+            let (Some(prop), Some(seed), Some(n)) = (args.get(1), args.get(2), args.get(3)) else {
+                usage()
+            };
+            let Some(c) = check_for(prop) else { usage() };
+            let v = driver::fingerprints(
+                c.as_ref(),
+                seed.parse().unwrap_or(DEFAULT_SEED),
+                n.parse().unwrap_or(100),
+                2,
+            );
+            let s: Vec<String> = v.iter().map(|x| x.to_string()).collect();
+            println!("{}", s.join(" "));
+            0
+        }
+        "selftest" => {
+            let n = args
+                .iter()
+                .position(|a| a == "--runs")
+                .and_then(|i| args.get(i + 1))
+                .and_then(|s| s.parse().ok())
+                .unwrap_or(2000u64);
+            let seed = std::env::var("VERIF_SEED")
+                .ok()
+                .and_then(|s| s.parse::<u64>().ok())
+                .unwrap_or(DEFAULT_SEED);
+            let only: Vec<&String> = args.iter().skip(2).filter(|a| a.starts_with('C')).collect();
+            let mut checks: Vec<Box<dyn Check>> = vec![];
+            for i in 1..=19 {
+                let p = format!("C{i:02}");
+                if only.is_empty() || only.iter().any(|o| **o == p) {
+                    if let Some(c) = check_for(&p) {
+                        checks.push(c);
+                    }
+                }
+            }
+            driver::selftest_determinism(&checks, seed, n)
+        }
         _ => usage(),
     };
     std::process::exit(code);
